@@ -10,7 +10,9 @@ import (
 type To struct {
 	nameAddr *NameAddr
 	addrSpec *AddrSpec
-	params   []KeyValue
+	// what stands between the '>' of the name-addr and the first ';' (blanks): kept so that the value is re-encoded as received
+	gap    string
+	params []KeyValue
 }
 
 func ParseTo(s string) (*To, error) {
@@ -36,6 +38,7 @@ func ParseTo(s string) (*To, error) {
 		}
 		pos := strings.IndexByte(s[raquot_pos+1:], ';')
 		if pos != -1 {
+			r.gap = s[raquot_pos+1 : raquot_pos+1+pos]
 			params = s[raquot_pos+1+pos+1:]
 		}
 	} else {
@@ -71,7 +74,7 @@ func (t *To) String() string {
 	buf := bytes.NewBuffer(make([]byte, 0))
 
 	if t.nameAddr != nil {
-		fmt.Fprintf(buf, "%s", t.nameAddr)
+		fmt.Fprintf(buf, "%s%s", t.nameAddr, t.gap)
 	} else {
 		fmt.Fprintf(buf, "%s", t.addrSpec)
 	}
